@@ -434,6 +434,14 @@ pub fn gen_frames(r: &mut Rng) -> MScn {
             let sig = if r.bool() { SigS::Cc(r.below(5) as u8) } else { SigS::Regs((0..r.below(4)).map(|_| r.below(6) as u8).collect()) };
             s.ops.insert(0, Op::SubDef(a, sig));
         }
+        // a signature registered again, with a different shape, in the middle of the run (after the callee
+        // may already have been called)
+        if !targets.is_empty() && r.chance(1, 3) {
+            let a = *r.pick(&targets);
+            let sig = if r.bool() { SigS::Cc(r.below(5) as u8) } else { SigS::Regs((0..1 + r.below(3)).map(|_| r.below(6) as u8).collect()) };
+            let at = r.below(s.ops.len() as u64 + 1) as usize;
+            s.ops.insert(at, Op::SubDef(a, sig));
+        }
         // the host calls a subroutine itself: between steps, after an error, on the halted machine
         if r.chance(1, 3) {
             let a = if !targets.is_empty() { *r.pick(&targets) } else { 0x3000 + r.below(0x40) as u16 };
